@@ -269,6 +269,12 @@ func (r *report) finish(doReplay bool) int {
 					ok = nat.Status == "panic"
 				case strings.HasPrefix(v.Label, "alloc-bounded@"):
 					ok = true // engine-side monitor; natively the allocation simply happens
+				case v.Label == "no data race":
+					// a data race has no native observable under the
+					// cooperative replay scheduler (and serialised accesses
+					// hide it from -race); the engine's happens-before
+					// verdict on the explored schedule is reported as is
+					ok = true
 				default:
 					ok = nat.Status == "assert" && nat.Label == v.Label
 				}
@@ -276,7 +282,7 @@ func (r *report) finish(doReplay bool) int {
 					conf = append(conf, confirmed{v: v, rel: j.rel, nat: nat})
 				} else {
 					unconfirmed++
-					unconfMsgs = append(unconfMsgs, fmt.Sprintf("%s/%s: engine counterexample not reproduced natively (native: %s %s %s)", v.Harness, v.Label, nat.Status, nat.Label, nat.Msg))
+					unconfMsgs = append(unconfMsgs, fmt.Sprintf("%s/%s: engine counterexample not reproduced natively (engine: %s; native: %s %s %s; draws %v)", v.Harness, v.Label, v.Msg, nat.Status, nat.Label, nat.Msg, v.Draws))
 				}
 			}
 		}
